@@ -119,7 +119,7 @@ func (g *slGen) shared(i int) bool {
 func (g *slGen) snapshot() []string {
 	var out []string
 	for i, v := range g.vars {
-		out = append(out, fmt.Sprintf("s%d %s %d %v", i, v.render(), v.ln, v.isNil))
+		out = append(out, fmt.Sprintf("s%d %s %d %v %v", i, v.render(), v.ln, v.isNil, v.isNil))
 		if v.ln > 0 {
 			out = append(out, "h "+c11Probe(g.h.Elem, v.elems()[0]))
 		}
@@ -387,7 +387,7 @@ func c11Script(h slHistory) string {
 		}
 		for i := 0; i < h.NVars+h.NRows; i++ {
 			nm := c11Name(h, i)
-			fmt.Fprintf(&sb, "\tprintln(\"s%d\", %s, len(%s), %s == nil)\n", i, nm, nm, nm)
+			fmt.Fprintf(&sb, "\tprintln(\"s%d\", %s, len(%s), %s == nil, nil == %s)\n", i, nm, nm, nm, nm)
 			fmt.Fprintf(&sb, "\tif len(%s) > 0 {\n\t\tprintln(\"h\", %s)\n\t}\n", nm, c11ProbeExpr(h.Elem, nm))
 		}
 	}
